@@ -40,6 +40,9 @@ type c20Case struct {
 	offset   uint32
 	reject   int // the consumer rejects the first n reports
 	seed     int64
+	// C18 reuses these worlds as "is the watcher still processing chain notifications afterwards?" probes:
+	slow  time.Duration // the consumer of a confirmation report takes this long (a taker paying the invoice)
+	probe func(watch c20Watch, chain *sim.Chain, offset uint32, pause func(), reports func() []c20Report)
 }
 
 // runC20 drives one block history against a real watcher and judges every report.
@@ -73,9 +76,11 @@ func runC20(r *Run, c c20Case) {
 	budget := 6
 	mode := c.pattern
 	lateTx := ""
+	hrng := mrand.New(mrand.NewSource(c.seed ^ 0x5bd1e995)) // the hook runs on the watcher's goroutines
 	hook := func(call string) error {
 		hookMu.Lock()
 		defer hookMu.Unlock()
+		rng := hrng
 		switch mode {
 		case "blocks-between-calls":
 			if budget > 0 && rng.Intn(3) == 0 {
@@ -119,6 +124,9 @@ func runC20(r *Run, c c20Case) {
 	var reports []c20Report
 	rejectLeft := c.reject
 	consumer := func(kind, id, raw string) error {
+		if c.slow > 0 && kind == "confirmed" {
+			time.Sleep(c.slow)
+		}
 		lo, hi := recent()
 		mu.Lock()
 		defer mu.Unlock()
@@ -194,6 +202,7 @@ func runC20(r *Run, c c20Case) {
 	watch.AddWaitForCsvTx(csvID, txid, 0, start, csv, script)
 	pause()
 	steps := 6 + rng.Intn(8)
+	edgeK := rng.Intn(6)
 	if c.pattern == "window-edge" {
 		steps = int(window) + 3
 	}
@@ -218,8 +227,9 @@ func runC20(r *Run, c c20Case) {
 				el.Notify(int32(chain.Height()+c.offset) - int32(rng.Intn(3)))
 			}
 		case "window-edge":
-			if s < int(window)-4 {
-				// hold the tx back so that it confirms right at the edge
+			if s < int(window)-edgeK {
+				// hold the tx back so that it confirms right at the edge: with its required depth reached a few
+				// blocks before, exactly at, or after the deadline
 				if tx != nil && s == 0 {
 					chain.Unconfirmable(tx.ID)
 				}
@@ -240,6 +250,15 @@ func runC20(r *Run, c c20Case) {
 		pause()
 	}
 	time.Sleep(15 * time.Millisecond)
+	if c.probe != nil {
+		c.probe(watch, chain, c.offset, pause, func() []c20Report {
+			mu.Lock()
+			defer mu.Unlock()
+			return append([]c20Report(nil), reports...)
+		})
+		cancel()
+		return
+	}
 	cancel()
 	// ---- oracle ---------------------------------------------------------------------
 	mu.Lock()
